@@ -280,8 +280,8 @@ pub fn property() -> Property {
         ],
         health: vec![("lock.rmw_history", "long-critical-section", 100)],
         subs: vec![
-            prop_sub("lock.rmw_history", 1_200, 40_000, |_| workload(), oracle).shards(4),
-            prop_sub("lock.many_handoffs", 60, 1_500, |_| heavy_workload(), oracle).shards(4),
+            prop_sub("lock.rmw_history", 1_200, 16_000, |_| workload(), oracle).shards(4),
+            prop_sub("lock.many_handoffs", 60, 600, |_| heavy_workload(), oracle).shards(4),
             prop_sub(
                 "lock.fault_not_torn",
                 200,
